@@ -6,7 +6,8 @@ package c09
 //   op line   : tx <gasLimit> <intrinsic> <program with the gas costs measured by a tracer on an ample-gas run>
 //   impl line : <status> gas=<gas used by the root frame (traced run at the same limit)> markers=<surviving SSTORE markers
 //               read from contract storage> kept=<precompile calls whose frame and all enclosing frames returned
-//               normally> logs=<number of precompile logs in the receipt> ref=<same|diff>
+//               normally> frames=<CALL-family frames of generated contracts that returned normally together with all
+//               their enclosing frames (journal level: what the StateDB kept of each frame)> logs=<number of precompile logs in the receipt> ref=<same|diff>
 //               where ref compares every Cosmos module store (and the ERC-20 token storage) after the real run with a
 //               REFERENCE run (ample gas) of the program pruned to exactly the kept frames — "surviving effects = those
 //               of calls all of whose enclosing frames returned normally", checked byte for byte on bank, staking,
@@ -142,6 +143,10 @@ func setup(t *testing.T, out *hx.Out) *env {
 	for _, a := range append(append([]common.Address{}, e.pool...), e.direct.Address()) {
 		s.App.StakingKeeper.SetAllowance(s.Ctx, s.ValAddr[0], e.owner.AccAddress(), a.Bytes(), big18(100).BigInt())
 		s.App.StakingKeeper.SetAllowance(s.Ctx, s.ValAddr[0], e.owner2.AccAddress(), a.Bytes(), big18(100).BigInt())
+	}
+	// every account that will call the precompiles has granted the sink an allowance (so that revoking it is a change)
+	for _, a := range append(append(append([]common.Address{}, e.pool...), e.direct.Address()), hookAddrOf(0), hookAddrOf(1)) {
+		s.App.StakingKeeper.SetAllowance(s.Ctx, s.ValAddr[0], a.Bytes(), e.sink.Bytes(), big18(5).BigInt())
 	}
 	for _, a := range append(append([]common.Address{}, e.pool...), e.direct.Address()) {
 		for k := 0; k < 2; k++ {
@@ -290,6 +295,7 @@ type runObs struct {
 	vmErr   string
 	markers []int
 	kept    []int
+	frames  []int // call nodes (frames of generated contracts) that returned normally together with every enclosing frame
 	dump    map[string]string
 	logs    string
 	nPreLog int
@@ -464,7 +470,7 @@ func (e *env) runWith(pctx sdk.Context, p *program, gasLimit uint64, traced bool
 	var res *evmtypes.MsgEthereumTxResponse
 	if traced {
 		o.tr = evmx.NewTracer()
-		res, err = evmx.SendTraced(cctx, e.s.App, tx, &rootTracer{Tracer: o.tr})
+		res, err = evmx.SendTraced(cctx, e.s.App, tx, newCreateTracer(o.tr))
 	} else {
 		res, err = evmx.Send(cctx, e.s.App, tx)
 	}
@@ -497,12 +503,20 @@ func (e *env) runWith(pctx sdk.Context, p *program, gasLimit uint64, traced bool
 	}
 	if o.tr != nil {
 		fn := frameNodes(p, o.tr)
+		tok := map[int]bool{} // the frame precompile -> hook token is the native action's own EVM call, not a CALL node of a program
+		for _, in := range p.inner {
+			tok[in.tokNode.ID] = true
+		}
 		for i, n := range fn {
 			if n.Op == "pre" && o.tr.Kept(i) {
 				o.kept = append(o.kept, n.ID)
 			}
+			if n.Op == "call" && !tok[n.ID] && o.tr.Kept(i) {
+				o.frames = append(o.frames, n.ID)
+			}
 		}
 		sort.Ints(o.kept)
+		sort.Ints(o.frames)
 	}
 	o.dump = e.dumpCosmos(cctx)
 	return o
@@ -510,7 +524,7 @@ func (e *env) runWith(pctx sdk.Context, p *program, gasLimit uint64, traced bool
 
 // prune returns the program restricted to frames that were kept in the traced run.
 func prune(p *program, tr *evmx.Tracer) *program {
-	q := &program{addrs: p.addrs, meta: p.meta, nodes: p.nodes, ctxOf: p.ctxOf, inner: map[int]*inner{}, direct: p.direct}
+	q := &program{addrs: p.addrs, meta: p.meta, nodes: p.nodes, ctxOf: p.ctxOf, inner: map[int]*inner{}, direct: p.direct, create: p.create}
 	if len(tr.Frames) == 0 || !tr.Kept(0) {
 		return q
 	}
@@ -560,7 +574,7 @@ func prune(p *program, tr *evmx.Tracer) *program {
 // install puts the program's contracts in place: the root tree and the hook contracts of the hook tokens in use
 func (e *env) install(ctx sdk.Context, p *program) error {
 	if !p.direct {
-		if err := evmx.InstallTree(ctx, e.s.App, p.addrs[0], p.root); err != nil {
+		if err := e.installTreeX(ctx, p, p.addrs[0], p.root); err != nil {
 			return err
 		}
 	}
@@ -682,7 +696,24 @@ func (e *env) progText(p *program, tr *evmx.Tracer) (string, uint64) {
 				}
 				callc, ok := sum(n.PcStart, n.PcCall)
 				ci, hasFrame := frameOf[n.ID]
-				if ok && hasFrame && !bad[key{frame, uint64(n.PcCall)}] {
+				if p.create[n.ID] {
+					// CREATE: the op's own charge (32000 + memory) does not contain the forwarded gas; no stipend
+					stip = 0
+					words := uint64(0)
+					if len(n.OpPcs) > 0 {
+						words = (uint64(len(assembleX(n.Body, p.create))) + 31) / 32
+					}
+					an = 3*3 + 3 + 3*words + memCost(words) + 3*2 + 3 + 32000 + 2*words // EIP-3860: 2 gas per word of init code
+					if hasFrame && ok && !bad[key{frame, uint64(n.PcCall)}] {
+						callc += cost[key{frame, uint64(n.PcCall)}]
+						if callc != an {
+							e.cnt(fmt.Sprintf("cost:create-measured-%d-differs-from-analytic-%d", callc, an))
+						}
+					} else {
+						callc = an
+					}
+					e.cnt("constructor-frame")
+				} else if ok && hasFrame && !bad[key{frame, uint64(n.PcCall)}] {
 					callOp := cost[key{frame, uint64(n.PcCall)}]
 					fwd := tr.Frames[ci].Gas - stip
 					callc += callOp - fwd
@@ -869,6 +900,7 @@ func TestC09(t *testing.T) {
 	nProg := hx.N(300, 2000)
 	debug := os.Getenv("VERIF_DEBUG") != ""
 	dir := e.directed(rand.New(rand.NewSource(seed ^ 0x5eed)))
+	dir = append(dir, e.createPrograms(rand.New(rand.NewSource(seed^0xc7ea)))...)
 	dir = append(dir, e.directCalls(rand.New(rand.NewSource(seed^0xd1ec)))...)
 	for pi := 0; pi < nProg+len(dir); pi++ {
 		out.Reset()
@@ -946,7 +978,8 @@ func TestC09(t *testing.T) {
 			if len(trc.tr.Frames) > 0 {
 				rootUsed = trc.tr.Frames[0].GasUsed
 			}
-			obs = fmt.Sprintf("%s gas=%d markers=%s kept=%s logs=%d ref=%s", real.status, rootUsed, ints(real.markers), ints(trc.kept), real.nPreLog, strings.SplitN(refs, ":", 2)[0])
+			obs = fmt.Sprintf("%s gas=%d markers=%s kept=%s frames=%s logs=%d ref=%s", real.status, rootUsed, ints(real.markers), ints(trc.kept), ints(trc.frames), real.nPreLog, strings.SplitN(refs, ":", 2)[0])
+			out.Count(fmt.Sprintf("kept-call-frames:%d", len(trc.frames)))
 			out.Emit(fmt.Sprintf("%s %d %d %s", opw, g, intrinsic, text), obs)
 			if p.direct {
 				out.Count("direct-call:" + p.meta[p.root[0].ID].variant + ":" + real.status)
